@@ -15,6 +15,8 @@ Case kinds
              atexit path of GlobalProfiler.show, in a subprocess; with
              `ascii_locale` the child runs under LC_ALL=C, PYTHONUTF8=0,
              PYTHONCOERCECLOCALE=0 (non-UTF-8 preferred encoding)
+  history    several LineProfiler objects and foreign writers share output paths;
+             after every dump_stats the file is loaded back
 `ref` texts are show_text applied directly to the snapshot with the options the
 MODEL says the channel passes (computed by the harness, sent in the payload)."""
 import contextlib
@@ -58,6 +60,7 @@ def write_sources(d, files):
     info = {}
     for f in files:
         path = os.path.join(d, f['fname'])
+        os.makedirs(os.path.dirname(path), exist_ok=True)
         lines = []
         starts = {}
         for fn in f['funcs']:
@@ -121,8 +124,12 @@ def channels_of_profiler(prof, c, d, out):
     # live print_stats
     for o in c.get('live', []):
         st = io.StringIO()
-        prof.print_stats(stream=st, **{k: v for k, v in kw_of(o['opts']).items()})
-        out.append(dict(chan=o['chan'], text=st.getvalue(), ref_opts=o['ref_opts']))
+        try:
+            prof.print_stats(stream=st, **{k: v for k, v in kw_of(o['opts']).items()})
+            text = st.getvalue()
+        except Exception as e:  # noqa
+            text = 'CHANNEL-RAISED %s: %s\n%s' % (type(e).__name__, e, st.getvalue())
+        out.append(dict(chan=o['chan'], text=text, ref_opts=o['ref_opts']))
     # dump_stats -> load_stats
     lprof = os.path.join(d, c.get('lprof_name', 'out.lprof'))
     prof.dump_stats(lprof)
@@ -134,7 +141,10 @@ def channels_of_profiler(prof, c, d, out):
             if rc != 0:
                 text = 'VIEWER-FAILED rc=%s %s' % (rc, err)
         else:
-            text = run_viewer_inproc(a, lprof)
+            try:
+                text = run_viewer_inproc(a, lprof)
+            except Exception as e:  # noqa
+                text = 'CHANNEL-RAISED %s: %s' % (type(e).__name__, e)
         out.append(dict(chan=a['chan'], text=text, ref_opts=a['ref_opts']))
     # explicit profiler: GlobalProfiler.show over this very profiler
     for k, e in enumerate(c.get('explicit', [])):
@@ -146,13 +156,17 @@ def channels_of_profiler(prof, c, d, out):
         gp.write_config = dict(e['wc'])
         gp.show_config = dict(e['sc'])
         buf = io.StringIO()
-        with contextlib.redirect_stdout(buf):
-            gp.show()
+        raised = None
+        try:
+            with contextlib.redirect_stdout(buf):
+                gp.show()
+        except Exception as ex:  # noqa
+            raised = '%s: %s' % (type(ex).__name__, ex)
         so = buf.getvalue()
         # stdout = [print_stats text] + 'Wrote profile results to ...' lines etc.
         msgs = [l for l in so.splitlines() if l.startswith(('Wrote profile results to ', 'To view details run:'))
                 or ' -m line_profiler -rtmz ' in l]
-        res = dict(wc=e['wc'], msgs=len(msgs))
+        res = dict(wc=e['wc'], msgs=len(msgs), raised=raised)
         if e['wc']['stdout']:
             cut = so.find('Wrote profile results to ')
             out.append(dict(chan=e['chan_stdout'], text=so if cut < 0 else so[:cut], ref_opts=e['ref_stdout'],
@@ -392,6 +406,82 @@ def case_explicit(c, root):
     return res
 
 
+def case_history(c, root):
+    """several profiler objects and foreign writers sharing output paths: after every
+    dump_stats the file is loaded back and compared with that profiler's live get_stats()."""
+    from line_profiler import LineProfiler
+    from line_profiler._line_profiler import LineStats
+    from line_profiler.line_profiler import load_stats
+    d = tempfile.mkdtemp(prefix='hist_', dir=root)
+    info = write_sources(d, c['files'])
+    funcs = {}
+    for k, f in enumerate(c['files']):
+        mod = load_module(info[f['fname']][0], 'c11hist_%d' % k)
+        for fn in f['funcs']:
+            funcs[(k, fn['name'])] = getattr(mod, fn['name'])
+    profs = []
+    for reg in c['profilers']:
+        p = LineProfiler()
+        for (k, name) in reg:
+            p.add_function(funcs[(k, name)])
+        profs.append(p)
+    cwd = os.getcwd()
+    os.chdir(d)
+    steps = []
+    try:
+        def path_of(i):
+            return c['paths'][i]          # relative names resolve against d (the cwd)
+
+        def try_load(pth):
+            if not os.path.exists(pth):
+                return None
+            try:
+                return snap_json(load_stats(pth))
+            except Exception as e:  # noqa
+                return dict(timings=[], unit=float(0).hex(), unloadable=repr(e))
+        for st in c['steps']:
+            op = st[0]
+            if op == 'run':
+                p = profs[st[1]]
+                p.enable_by_count()
+                try:
+                    for (k, name, n) in st[2]:
+                        funcs[(k, name)](n)
+                finally:
+                    p.disable_by_count()
+                steps.append(dict(op='run'))
+            elif op == 'dump':
+                p = profs[st[1]]
+                live = snap_json(p.get_stats())
+                err = None
+                try:
+                    p.dump_stats(path_of(st[2]))
+                except Exception as e:  # noqa
+                    err = repr(e)
+                steps.append(dict(op='dump', prof=st[1], file=st[2], live=live, live_after=snap_json(p.get_stats()),
+                                  loaded=try_load(path_of(st[2])), err=err))
+            elif op in ('foreign', 'replace'):
+                tim = {(os.path.join(d, e['fname']), e['start'], e['func']): [tuple(r) for r in e['rows']] for e in st[2]}
+                ls = LineStats(tim, float(st[3]))
+                target = path_of(st[1])
+                tmpname = target + '.part' if op == 'replace' else target
+                with open(tmpname, 'wb') as fh:
+                    pickle.dump(ls, fh, pickle.HIGHEST_PROTOCOL)
+                if op == 'replace':
+                    os.replace(tmpname, target)
+                steps.append(dict(op='foreign', file=st[1], snap=snap_json(ls)))
+            elif op == 'delete':
+                with contextlib.suppress(FileNotFoundError):
+                    os.unlink(path_of(st[1]))
+                steps.append(dict(op='delete', file=st[1]))
+            elif op == 'load':
+                steps.append(dict(op='load', file=st[1], loaded=try_load(path_of(st[1]))))
+    finally:
+        os.chdir(cwd)
+        shutil.rmtree(d, ignore_errors=True)
+    return dict(history=steps)
+
+
 def main():
     payload = read_payload()
     root = tempfile.mkdtemp(prefix='c11_', dir=payload['tmp'])
@@ -400,7 +490,8 @@ def main():
     try:
         for c in payload['cases']:
             try:
-                fn = dict(live=case_live, synthetic=case_synthetic, kernprof=case_kernprof, explicit=case_explicit)[c['kind']]
+                fn = dict(live=case_live, synthetic=case_synthetic, kernprof=case_kernprof, explicit=case_explicit,
+                          history=case_history)[c['kind']]
                 res.append(fn(c, root))
             except Exception as e:  # noqa
                 import traceback
